@@ -206,7 +206,7 @@ def run(ctx):
     d = ctx.stage("DataRepo")
     exe = ctx.harness("dr_replay", ["harness/datarepo/dr_replay.c"])
     scen = [dict(sc) for sc in SCENARIOS]
-    for k in range(4 if ctx.quick else 16):
+    for k in range(3 if ctx.quick else 16):
         scen.append(random_scenario(ctx.rng, "rnd%d" % k))
     for sc in scen + STRESS:
         check_contract(sc["threads"])
@@ -299,7 +299,7 @@ def run(ctx):
     if distinct:
         ctx.sample({"history": distinct[0]})
         ctx.sample({"history": distinct[len(distinct) // 2]})
-    fails = ctx.validate("DataRepo", "RepoTrace", "RepoTrace.cfg", distinct, batch=1000, timeout=1500)
+    fails = ctx.validate("DataRepo", "RepoTrace", "RepoTrace.cfg", distinct, batch=2500, timeout=1500)
     ctx.traces = len(executions)
     # sensitivity self-test of the trace specification: a history whose reclamation event is erased must be rejected
     good = next((e for e in distinct if any(ev.get("e") == "reclaim" for ev in e)), None)
